@@ -4,6 +4,7 @@
 //   DECODE bits low -> the numbers Erat::nextPrime yields for the set bits of a 64-bit word
 //   XOFF size l1 prime mi wi -> the bytes EratSmall::crossOff changes for one sieving prime, and its stored state
 //   EBIG log2 nseg (prime mi wi)* -> the bytes EratBig::crossOff changes per segment and the bucket lists afterwards
+//   EMED size nseg (prime mi wi)* -> the same for EratMedium (64 lists, one per wheel index)
 #include <stdint.h>
 #include <cstddef>
 #include <string>
@@ -117,6 +118,40 @@ int main()
       out += "size=" + std::to_string(eb.buckets_.size());
       for (std::size_t k = 0; k < eb.buckets_.size(); k++) {
         SievingPrime* endp = eb.buckets_[k];
+        if (!endp) continue;
+        std::vector<std::vector<uint64_t>> es;
+        Bucket* b = Bucket::get(endp);
+        bool first = true;
+        while (b) {
+          SievingPrime* e = first ? endp : b->end();
+          for (SievingPrime* q = b->begin(); q != e; q++) es.push_back({ (uint64_t) q->getSievingPrime(), (uint64_t) q->getMultipleIndex(), (uint64_t) q->getWheelIndex() });
+          first = false; b = b->next();
+        }
+        std::sort(es.begin(), es.end());
+        if (es.empty()) continue;
+        out += " " + std::to_string(k) + ":";
+        for (std::size_t j = 0; j < es.size(); j++) out += (j ? ";" : "") + std::to_string(es[j][0]) + "," + std::to_string(es[j][1]) + "," + std::to_string(es[j][2]);
+      }
+      std::cout << out << std::endl;
+    } else if (t.size() >= 3 && t[0] == "EMED") {
+      // EMED size nseg (prime multipleIndex wheelIndex)*: the real EratMedium on all-ones sieves of `size` bytes.  Output: per
+      // segment "byte:value ... |", then "size=<buckets_.size()>" and every non-empty list "k:sp,i,w;..." (w = the wheel index
+      // stored in the entry, k = the list it is filed under; entries sorted)
+      std::size_t size = (std::size_t) u64(t[1]); uint64_t nseg = u64(t[2]);
+      uint64_t maxp = 0; for (std::size_t k = 3; k + 2 < t.size(); k += 3) maxp = std::max(maxp, u64(t[k]));
+      MemoryPool pool; EratMedium em; em.init(~0ull, maxp, pool);
+      for (std::size_t k = 3; k + 2 < t.size(); k += 3) em.storeSievingPrime(u64(t[k]), u64(t[k + 1]), u64(t[k + 2]));
+      std::string out;
+      Vector<uint8_t> sieve; sieve.resize(size);
+      for (uint64_t sgi = 0; sgi < nseg; sgi++) {
+        for (std::size_t i = 0; i < size; i++) sieve[i] = 0xff;
+        em.crossOff(sieve);
+        for (std::size_t i = 0; i < size; i++) if (sieve[i] != 0xff) out += std::to_string(i) + ":" + std::to_string((unsigned) sieve[i]) + " ";
+        out += "| ";
+      }
+      out += "size=" + std::to_string(em.buckets_.size());
+      for (std::size_t k = 0; k < em.buckets_.size(); k++) {
+        SievingPrime* endp = em.buckets_[k];
         if (!endp) continue;
         std::vector<std::vector<uint64_t>> es;
         Bucket* b = Bucket::get(endp);
